@@ -82,6 +82,18 @@ class C03(Prop):
             data = [rng.randrange(2) for _ in range(ln)]
             buf = rng.choice(("-", "ok", "+1", "-1", "0"))
             cases.append({"op": op, "dt": dt, "d": d, "order": order, "buf": buf, "data": data})
+        # otherwise valid calls with a caller buffer of EVERY size near the right one (off by less than, exactly
+        # and more than one byte's worth of samples): only the exact size may be accepted
+        for d in (1, 2, 4):
+            k = 8 // d
+            for order in ("big", "little"):
+                for op in ("unpack", "pack"):
+                    for ln in range(0, 4 if op == "unpack" else 3 * k + 1):
+                        data = [rng.randrange(256 if op == "unpack" else 1 << d) for _ in range(ln)]
+                        for off in range(-(k + 1), k + 2):
+                            if off == 0:
+                                continue
+                            cases.append({"op": op, "dt": "u8", "d": d, "order": order, "buf": f"{off:+d}", "data": data})
         return cases
 
     # -- implementation ------------------------------------------------------
@@ -93,7 +105,9 @@ class C03(Prop):
             good = n * (8 // d) if case["op"] == "unpack" else n // (8 // d)
         else:
             good = n
-        return {"ok": good, "+1": good + 1, "-1": max(0, good - 1), "0": 0}[case["buf"]]
+        if case["buf"] in ("ok", "0"):
+            return good if case["buf"] == "ok" else 0
+        return max(0, good + int(case["buf"]))          # "+k" / "-k": k elements too many / too few
 
     def observe(self, case):
         from sigpyproc.io import bits
@@ -162,7 +176,7 @@ class C03(Prop):
             return "invalid-depth"
         if not case["order"] or case["order"][0] not in "bl":
             return "invalid-order"
-        if case["buf"] in ("+1", "-1", "0") and "err" in obs:
+        if case["buf"] not in ("-", "ok") and "err" in obs:
             return "invalid-bufsize"
         if not case["data"]:
             return "empty"
